@@ -1,3 +1,6 @@
 Require Extraction. Require Import ExtrOcamlBasic.
-From GV Require Import LatchModel.
-Extraction "latch_model.ml" LatchModel.run_case.
+From Coq Require Import List ZArith.
+From GV Require Import Sched Enum LatchModel.
+Definition enum_case (cfg : list Z) (progs : list (list (list Z))) (depth budget : Z) :=
+  enum_case_gen glob loc tstep (init (match cfg with n :: _ => n | nil => 0%Z end) (map decode_prog progs)) depth budget.
+Extraction "latch_model.ml" LatchModel.run_case enum_case.
